@@ -848,6 +848,32 @@ m('c14_sma_valid_only', ['C14'], 'jesse/indicators/sma.py',
 m('c14_macd_hist_unpadded', ['C14'], 'jesse/indicators/stochastic.py',
   "    if sequential:\n        return Stochastic(k, d)", "    if sequential:\n        return Stochastic(k, d[1:])")
 
+m('c13_sma_shifted_for_long_periods', ['C13'], 'jesse/indicators/sma.py',
+  "        res[period-1:] = np.convolve(source, np.ones(period, dtype=float)/period, mode='valid')",
+  "        cv = np.convolve(source, np.ones(period, dtype=float)/period, mode='valid')\n        res[period-1:] = cv\n        if period >= 30:\n            res[period-1:-1] = cv[1:]",
+  note='only non-default long periods: the window reaches one candle into the future')
+m('c13_zscore_global_sigma', ['C13'], 'jesse/indicators/zscore.py',
+  "            std_values = np.std(rolling_windows, axis=1, ddof=0)",
+  "            std_values = np.std(rolling_windows, axis=1, ddof=0) if nbdev == 1 else np.full(len(rolling_windows), np.std(source))",
+  note='non-default nbdev: the deviation is taken over the whole series')
+m('c13_donchian_forward_window', ['C13'], 'jesse/indicators/donchian.py',
+  "        rolling_max[period - 1:] = np.max(windowed_high, axis=1)",
+  "        rolling_max[period - 1:] = np.max(windowed_high, axis=1)\n        rolling_max[period - 1:-1] = np.max(windowed_high, axis=1)[1:]")
+m('c13_kama_kernel_reads_next', ['C13'], 'jesse/indicators/kama.py',
+  "        for j in range(i - period + 1, i + 1):", "        for j in range(i - period + 1, i + 2):",
+  note='numba kernel reads src[i+1]: out of bounds at the last index (bounds checker) and non-causal before')
+m('c13_kama_change_from_future', ['C13'], 'jesse/indicators/kama.py',
+  "        change = abs(src[i] - src[i - period])", "        change = abs(src[min(i + 1, n - 1)] - src[i - period])")
+m('c14_kama_last_is_previous', ['C14'], 'jesse/indicators/kama.py',
+  "    return result if sequential else result[-1]", "    return result if sequential else result[-2]")
+m('c14_donchian_single_window_longer', ['C14'], 'jesse/indicators/donchian.py',
+  "        uc = np.max(high[-period:])", "        uc = np.max(high[-period - 1:])")
+m('c14_zscore_sequential_short', ['C14'], 'jesse/indicators/zscore.py',
+  "    return zScores if sequential else zScores[-1]", "    return zScores[1:] if sequential else zScores[-1]")
+m('c14_slice_candles_longer_window', ['C14'], 'jesse/helpers.py',
+  "        candles = candles[-warmup_candles_num:]", "        candles = candles[-warmup_candles_num - 40:]",
+  note='single-value results are computed on a longer trailing window than documented: visible for recursive indicators whose seed has not decayed')
+
 # ---- C15 -----------------------------------------------------------------------------------------
 m('c15_ema_alpha', ['C15'], 'jesse/indicators/ema.py', "    alpha = 2 / (period + 1)", "    alpha = 2 / period")
 m('c15_wma_window_short', ['C15'], 'jesse/indicators/wma.py',
